@@ -98,6 +98,15 @@ def gen_case(seed):
     # a raw session asks for the listing, then changes its working directory, and only then
     # makes the data connection: the entries are those of the directory the command named
     case["late"] = rnd.choice([None, None, ["CDUP"], ["CWD /"], ["CWD /elsewhere"]])
+    if case["late"] is not None and rnd.random() < 0.5:
+        # ... and meanwhile the clock moves on and another entry appears in the directory: it is
+        # listed with the precision its age has when the listing is produced
+        case["late_fresh"] = rnd.choice([61, 600, 3700])
+    if case["late"] is None and rnd.random() < 0.25:
+        # a backend failure at the j-th call of the raw listing: the listing fails (451), or it
+        # completes - then it is complete
+        case["late"] = []
+        case["late_fault"] = rnd.randint(1, 2 * len(entries) + 4)
     return case
 
 
@@ -235,7 +244,7 @@ def _run_case(case):
                 truth.clear()
                 truth.update(saved)
             await client.quit()
-            if case.get("late"):
+            if case.get("late") is not None:
                 from simftp import conform
                 from simftp.peers import PeerGone, RawPeer, ReplyTimeout
 
@@ -247,18 +256,47 @@ def _run_case(case):
                     for verb in verbs:
                         await peer.cmd("CWD /" + dname)
                         await peer.passive("EPSV")
+                        if case.get("late_fault"):
+                            import errno as _errno
+
+                            world.fsctl.fail_at[world.fsctl.n + case["late_fault"]] = _errno.EIO
                         code, _ = await peer.cmd(verb)
                         if code[0] != "1":
+                            world.fsctl.fail_at.clear()
                             continue
                         between = [(await peer.cmd(line))[0] for line in case["late"]]
+                        fresh = None
+                        if case.get("late_fresh") and "fresh-entry" not in truth:
+                            world.clock.jump(case["late_fresh"])
+                            fresh = {"name": "fresh-entry", "type": "file", "size": 3, "mtime": int(world.clock.time()) - 5}
+                            n = aioftp.pathio.Node("file", fresh["name"], content=io.BytesIO(b""))
+                            n.fake_size = fresh["size"]
+                            n.mtime = n.ctime = fresh["mtime"]
+                            d.content.append(n)
+                            truth[fresh["name"]] = fresh
+                        t0 = world.clock.time()
                         await peer.data_connect()
                         data, _how = await peer.recv_all(timeout=100.0)
+                        t1 = world.clock.time()
                         peer.data_close()
                         final = (await peer.reply(100.0))[0]
+                        faulted = bool(world.fsctl.faults_fired) if case.get("late_fault") else False
+                        world.fsctl.fail_at.clear()
                         names = sorted(conform.listing_names(verb, data))
                         info["late_listings"] = info.get("late_listings", 0) + 1
                         if final[0] == "2" and names != sorted(truth):
-                            viol.append({"clause": "entries-differ", "subject": f"{verb}:commands-before-data-connection", "detail": f"CWD /{dname}, {verb} (150), then {case['late']} (answered {between}), then the data connection: listed {names}, the directory holds {sorted(truth)}"})
+                            how_txt = f"a backend failure at call {case['late_fault']} of the listing" if case.get("late_fault") else f"then {case['late']} (answered {between})"
+                            viol.append({"clause": "entries-differ", "subject": f"{verb}:" + ("backend-failure-during-listing" if case.get("late_fault") else "commands-before-data-connection"), "detail": f"CWD /{dname}, {verb} (150), {how_txt}, then the data connection: completed with {final} and listed {names}, the directory holds {sorted(truth)}"})
+                        if verb == "LIST" and final[0] == "2" and fresh is not None:
+                            parser = aioftp.Client(path_io_factory=aioftp.MemoryPathIO)
+                            for raw_line in data.split(b"\r\n"):
+                                if raw_line.endswith(b" fresh-entry"):
+                                    _p, inf = parser.parse_list_line_unix(raw_line)
+                                    wants = {expected_list_modify(fresh["mtime"], t0), expected_list_modify(fresh["mtime"], t1)}
+                                    if inf.get("modify") not in wants and not ambiguous(fresh["mtime"], t0, t1):
+                                        viol.append({"clause": "modify-differs", "subject": "LIST:entry-created-after-the-command", "detail": f"LIST (150), the clock moves on {case['late_fresh']} s, 'fresh-entry' is created (mtime 5 s ago), then the data connection: listed as {raw_line.decode('utf-8', 'replace')!r} -> modify {inf.get('modify')!r}, expected one of {sorted(wants)}"})
+                        if faulted:
+                            info["late_faulted"] = info.get("late_faulted", 0) + 1
                     await peer.cmd("QUIT")
                 except (PeerGone, ReplyTimeout, OSError) as e:
                     viol.append({"clause": "listing-failed", "subject": "commands-before-data-connection", "detail": f"raw session: {type(e).__name__}"})
@@ -288,7 +326,7 @@ def _run_case(case):
             "events": world.net.seq,
             "steps": world.loop.steps,
             "outcome": world.outcome,
-            "counters": {"entries_checked": info["entries_checked"], "entries_in_ambiguity_window_(modify_not_compared)": info["skipped_ambiguous"], "faults.clock_jump_between_listings": int(bool(case.get("jump"))), "probe.listings_with_commands_before_the_data_connection": info.get("late_listings", 0)},
+            "counters": {"entries_checked": info["entries_checked"], "entries_in_ambiguity_window_(modify_not_compared)": info["skipped_ambiguous"], "faults.clock_jump_between_listings": int(bool(case.get("jump"))), "probe.listings_with_commands_before_the_data_connection": info.get("late_listings", 0), "faults.backend_failure_during_a_raw_listing": info.get("late_faulted", 0)},
             "groups": {"tz": {case["tz"]: 1}, "server": {"no-mlsx" if case.get("no_mlsx") else "mlsx": 1}},
             "violations": out,
         }
